@@ -659,9 +659,74 @@ def run(ctx):
         ctx.count("drawD:" + ("E>=2^24" if E >= 2 ** 24 else "small-E"))
         if any(o != (k * E) // 2 ** 53 for o, k in zip(outs, ks)):
             ctx.count("drawD:rounding changed the index (floor(fl(u*E)) != floor(u*E))")
+    # round 5: `rnd64` / `rndQ 24` on arguments that are NOT on the grid of the format (quotients of
+    # doubles / of binary32 numbers, p/q with odd q), against three independent correctly rounded
+    # operations: hardware binary64 division and multiplication, hardware binary32 division, and
+    # CPython's int/int true division
+    def fr(v):
+        return Fraction(float(v))
+
+    def sr(q):
+        return str(q.numerator) if q.denominator == 1 else f"{q.numerator}/{q.denominator}"
+
+    def f64_value():
+        k = rng.choice(["unit", "int", "wide", "subnormal", "53bit"])
+        if k == "unit":
+            return rng.randrange(2 ** 53) / 2.0 ** 53
+        if k == "int":
+            return float(rng.randrange(1, 2 ** 31))
+        if k == "wide":
+            return float(np.ldexp(rng.randrange(1, 2 ** 53), rng.randrange(-200, 200)))
+        if k == "subnormal":
+            return float(np.ldexp(float(rng.randrange(1, 2 ** 20)), -1074))
+        return float(rng.randrange(2 ** 52, 2 ** 53))
+    q64, g64, q32, g32 = [], [], [], []
+    for _ in range(200 if quick else 2000):
+        op = rng.choice(["div", "div", "mul", "pq", "tie", "sub-quot"])
+        if op in ("div", "mul", "sub-quot"):
+            a, b = f64_value(), f64_value()
+            if rng.random() < 0.3:
+                a = -a
+            if op == "sub-quot":      # results in the subnormal range: grid step 2^-1074, ties possible
+                a, b = float(np.ldexp(rng.randrange(1, 2 ** 12), -1074)), float(rng.choice([2, 3, 4, 5, 7, 8]))
+            with np.errstate(all="ignore"):
+                z = np.float64(a) / np.float64(b) if op != "mul" else np.float64(a) * np.float64(b)
+            exact = fr(a) / fr(b) if op != "mul" else fr(a) * fr(b)
+            if not np.isfinite(z):
+                continue
+        elif op == "pq":
+            pn, qd = rng.randrange(-2 ** 70, 2 ** 70), rng.choice([3, 5, 7, 10, 2 ** 60 + 1, rng.randrange(1, 2 ** 40)])
+            z, exact = pn / qd, Fraction(pn, qd)          # CPython: correctly rounded
+        else:                                             # exact ties between neighbouring doubles
+            m, e = rng.randrange(2 ** 52, 2 ** 53), rng.randrange(1, 40)
+            exact = Fraction(2 * m + 1, 2) * 2 ** e * rng.choice([1, -1])
+            z = exact.numerator / exact.denominator
+        q64.append(sr(exact))
+        g64.append(sr(fr(z)))
+        ctx.count(f"rnd64:{op}:" + ("rounded" if fr(z) != exact else "exact")
+                  + (":off-grid" if (exact * 2 ** 1074).denominator != 1 else ""))
+    for _ in range(150 if quick else 1500):
+        a, b = f32_value(rng.choice(["uniform", "mixed-exponents", "near-2^24"])), \
+            f32_value(rng.choice(["uniform", "mixed-exponents", "near-2^24"]))
+        if float(b) == 0.0:
+            continue
+        with np.errstate(all="ignore"):
+            z = np.float32(a) / np.float32(b)
+        if not np.isfinite(z):
+            continue
+        exact = fr(a) / fr(b)
+        q32.append(sr(exact))
+        g32.append(sr(fr(z)))
+        ctx.count("rnd32q:div:" + ("rounded" if fr(z) != exact else "exact")
+                  + (":off-grid" if (exact * 2 ** 149).denominator != 1 else ""))
+    reqs.append("rnd64 " + (",".join(q64) or "-"))
+    impl.append(",".join(g64) or "-")
+    reqs.append("rnd32q " + (",".join(q32) or "-"))
+    impl.append(",".join(g32) or "-")
     ctx.correspond("Lean geoRunFl rnd32 == compiled _randomly_rewire_geomodel_I/II/III on arbitrary binary32 "
                    "distances / tolerances (integers in units of a power of two); rnd32 == binary32 subtraction; "
-                   "geoDrawR rnd64 == numpy's floor(u * E) for 53-bit u", reqs, impl)
+                   "geoDrawR rnd64 == numpy's floor(u * E) for 53-bit u; rnd64 / rndQ 24 on off-grid rationals == "
+                   "hardware binary64 / binary32 division, multiplication, CPython int/int", reqs, impl)
 
     # ------------------------------------------------------------------
     # 2. geographical rewiring through the public methods: histories on one object
